@@ -1,4 +1,6 @@
 import Verif.Proofs.Val.Eq
+import Verif.Proofs.Val.DictEq
+import Verif.Proofs.Val.HashInj
 import Verif.Proofs.Val.Dict
 /-!
 # C18 — Equality, ordering and hashing obey their laws
@@ -39,22 +41,53 @@ theorem hashinput_uses_own_tag :
       ("Word128Value", ["Word128"]), ("Word16Value", ["Word16"]), ("Word256Value", ["Word256"]),
       ("Word32Value", ["Word32"]), ("Word64Value", ["Word64"]), ("Word8Value", ["Word8"])] := by decide
 
-/-- `==` is an equivalence: reflexive, symmetric, transitive — on all well-formed values without a
-dictionary inside (numbers, strings, characters, booleans, addresses, paths, enums, type values,
-optionals and arrays of these, nested to any depth).
+/-- **`==` is an equivalence**: reflexive, symmetric, transitive — on all well-formed values (numbers,
+strings, characters, booleans, addresses, paths, enums, type values, optionals, arrays and
+*dictionaries* of these, nested to any depth).  `Val.keysOK` is what `DictionaryValue` guarantees:
+the keys of every dictionary inside are hashable and pairwise unequal (vacuous without dictionaries).
+`DictionaryValue.Equal` compares the counts and then looks every entry of the receiver up in the
+other dictionary — a one-sided inclusion test; symmetry is the counting argument that an inclusion
+between equally many pairwise unequal keys is a bijection (`match_surj`). -/
+theorem eq_equiv :
+    (∀ a : Val, a.wf = true → a.keysOK = true → eq a a = true) ∧
+    (∀ a b : Val, a.wf = true → b.wf = true → a.keysOK = true → b.keysOK = true →
+      eq a b = true → eq b a = true) ∧
+    (∀ a b c : Val, a.wf = true → b.wf = true → c.wf = true →
+      a.keysOK = true → b.keysOK = true → c.keysOK = true →
+      eq a b = true → eq b c = true → eq a c = true) :=
+  ⟨fun a w k => eqK_refl a ⟨w, k⟩,
+   fun a b wa wb ka kb => eqK_symm a b ⟨wa, ka⟩ ⟨wb, kb⟩,
+   fun a b c wa wb wc ka kb kc => eqK_trans a b c ⟨wa, ka⟩ ⟨wb, kb⟩ ⟨wc, kc⟩⟩
 
-Full statement (also for values containing dictionaries, given pairwise unequal keys): not proved —
-`DictionaryValue.Equal` is a one-sided inclusion test and needs a counting argument. -/
-theorem eq_equiv_partial :
+-- two dictionaries {"é": [T1], 1: nil} listed in different orders, type members permuted: well-formed, equal both ways
+example :
+    let d1 : Val := .dict (.dict (.prim [0x41]) (.prim [0x42]))
+      [(.str [0xc3, 0xa9], .arr (.varr (.prim [0x41])) [.type (some (.inter [[0x49], [0x4a]]))]), (.num .int8 1, .nil)]
+    let d2 : Val := .dict (.dict (.prim [0x41]) (.prim [0x42]))
+      [(.num .int8 1, .nil), (.str [0xc3, 0xa9], .arr (.varr (.prim [0x41])) [.type (some (.inter [[0x4a], [0x49]]))])]
+    d1.wf = true ∧ d1.keysOK = true ∧ d2.wf = true ∧ d2.keysOK = true ∧ eq d1 d2 = true ∧ eq d2 d1 = true := by
+  decide
+
+/-- the dictionary-free special case needs the key condition on no side (the earlier partial theorem) -/
+theorem eq_equiv_dictFree :
     (∀ a : Val, a.wf = true → a.dictFree = true → eq a a = true) ∧
     (∀ a b : Val, a.wf = true → b.wf = true → a.dictFree = true → eq a b = true → eq b a = true) ∧
     (∀ a b c : Val, a.wf = true → b.wf = true → c.wf = true → a.dictFree = true →
-      eq a b = true → eq b c = true → eq a c = true) :=
-  ⟨eq_refl, eq_symm, eq_trans⟩
+      eq a b = true → eq b c = true → eq a c = true) ∧
+    (∀ a : Val, a.dictFree = true → a.keysOK = true) :=
+  ⟨eq_refl, eq_symm, eq_trans, keysOK_of_dictFree⟩
 
 example : eq (.arr (.varr (.prim [0x41])) [.some (.str [0xc3, 0xa9]), .type (some (.inter [[0x49], [0x4a]]))])
     (.arr (.varr (.prim [0x41])) [.some (.str [0xc3, 0xa9]), .type (some (.inter [[0x4a], [0x49]]))]) = true := by
   decide
+
+/-- The key condition is needed: `DictionaryValue.Equal` really is one-sided.  On a dictionary that
+lists a key twice (not constructible: `Insert` replaces the entry of an equal key) it is not
+symmetric. -/
+theorem dict_duplicate_key_witness :
+    let d1 : Val := .dict (.dict (.prim [0x41]) (.prim [0x42])) [(.bool true, .nil), (.bool true, .nil)]
+    let d2 : Val := .dict (.dict (.prim [0x41]) (.prim [0x42])) [(.bool true, .nil), (.bool false, .nil)]
+    d1.wf = true ∧ d1.keysOK = false ∧ d2.keysOK = true ∧ eq d1 d2 = true ∧ eq d2 d1 = false := by decide
 
 /-- Recorded region outside `Val.wf`: an *unknown* type value (only produced by decoding a stored
 type value whose type is CBOR nil; "Unknown types are never equal to another type") is not equal to
@@ -126,6 +159,44 @@ example : comparable (.str [0x61]) (.str [0x61, 0x62]) = true ∧ lt (.str [0x61
 /-- Equal values have the same hash input (so equal keys land in the same hash bucket). -/
 theorem hash_respects_eq (a b : Val) (wa : a.wf = true) (wb : b.wf = true) (h : eq a b = true) :
     hashInput a = hashInput b := hash_of_eq a b wa wb h
+
+/-- **Equal hash inputs come from equal values** — for all well-formed hashable values other than type
+values, of whatever (possibly different) kinds: booleans, strings, characters, addresses, paths, numbers
+of the 24 kinds (minimal signed / unsigned big-endian magnitudes for `Int`, `UInt` and the 128/256-bit
+kinds, fixed-width two's-complement patterns for the others: each injective on the kind's range) and
+enums (tag, type ID and the raw value's hash input are concatenated *without a length prefix*; the
+boundary is recognisable because an enum's type ID — identifier characters and `.`, `Val.idPrintable` —
+contains no byte ≤ 0x20 while the raw value's tag, an integer kind, is in 10 … 32).  With
+`hash_respects_eq`: on these keys `eq a b ↔ hashInput a = hashInput b`.
+
+Full statement `hash_injective` (also for type values, `HashInput = tag ++ StaticType.ID()`): not
+proved — it needs the unambiguity of the type-ID grammar (`[T]`, `[T;n]`, `{K:V}`, `{I1,I2}`,
+`auth(E1,E2)&T`, `Capability<T>`, …) and the fact that primitive, composite and interface types share
+one ID namespace, which the model (IDs are arbitrary bytes, see `type_id_collision_witness`) does not
+have; the `eqhash` stream checks "no hash collision of unequal keys" on type values. -/
+theorem hash_injective_partial (a b : Val) (wa : a.wf = true) (wb : b.wf = true)
+    (pa : a.idPrintable = true) (pb : b.idPrintable = true) (nt : ∀ t, a ≠ .type t)
+    (hs : hashInput a ≠ none) (h : hashInput a = hashInput b) : eq a b = true :=
+  hash_inj a b wa wb pa pb nt (Option.isSome_iff_ne_none.2 hs) h
+
+-- -129 as Int (two bytes ff 7f) and -129 as Int256: different tags; 2^64 as UInt128 is 01 00…00
+example : hashInput (.num .int (-129)) = some [10, 0xff, 0x7f] ∧ hashInput (.num .int256 (-129)) = some [16, 0xff, 0x7f] ∧
+    hashInput (.num .uint128 (2 ^ 64)) = some [23, 1, 0, 0, 0, 0, 0, 0, 0, 0] ∧
+    (Val.num .int (-129)).wf = true ∧ (Val.enum [0x53, 0x2e, 0x45] .uint8 3).idPrintable = true ∧
+    hashInput (.enum [0x53, 0x2e, 0x45] .uint8 3) = some [2, 0x53, 0x2e, 0x45, 19, 3] := by decide
+
+/-- `Val.idPrintable` is needed: without a length prefix, an enum type ID ending in a tag byte collides
+(model artefact: real type IDs consist of identifier characters and `.`). -/
+theorem enum_id_collision_witness :
+    hashInput (.enum [0x41] .int16 0x0b05) = hashInput (.enum [0x41, 0x0c] .int8 5) ∧
+    eq (.enum [0x41] .int16 0x0b05) (.enum [0x41, 0x0c] .int8 5) = false ∧
+    (Val.enum [0x41, 0x0c] .int8 5).idPrintable = false := by decide
+
+/-- Why type values are outside `hash_injective_partial`: in the model a primitive and a composite type
+may carry the same ID bytes (in `/repo` they share one namespace). -/
+theorem type_id_collision_witness :
+    hashInput (.type (some (.prim [0x41]))) = hashInput (.type (some (.comp [0x41]))) ∧
+    eq (.type (some (.prim [0x41]))) (.type (some (.comp [0x41]))) = false := by decide
 
 -- `auth(E2, E1) &T` and `auth(E1, E2) &T` (IDs `E1` = 45 31, `E2` = 45 32, `T` = 54): equal, hash input `05 auth(E1,E2)&T`
 example : eq (.type (some (.ref (.set false [[0x45, 0x31], [0x45, 0x32]]) (.prim [0x54]))))
